@@ -27,7 +27,7 @@ CLAIMED = {
          "Every history up to the depth bound of auto-commit statements, 1-2 statement transactions ended by commit or abort, clean and crash restarts, per index kind (skip list, unique skip list, B-tree, hash) and seed; whenever no transaction is open every key of the domain is looked up through the index (plan API, so the index is really used) and compared with the rows of the heap holding that key; range scans must return exactly the in-range rows, once, in key order; unbounded index scan = table.",
          "as C03; crash restarts at quiescent points only", "§4 C07"),
  "C08": ("invariant monitor evaluated at every event of the recorded I/O trace of every explored history (the C01/C02 history space)",
-         "For every history of the C01/C02 space (all pool sizes, checkpoint placements, eviction patterns they contain) the complete DiskManager call trace is checked event by event: a heap page write never carries a page LSN beyond the last complete record on stable storage, a writing transaction's commit returns only after its COMMIT record is durable, the log file always parses (with the repository's own record parser) into complete records with per-transaction increasing LSNs and intact prevLSN chains.",
+         "For every history of the C01/C02 space (all pool sizes, checkpoint placements, eviction patterns they contain) the complete DiskManager call trace is checked event by event: a heap page write never carries a page LSN beyond the last complete record on stable storage; every row slot and next-page link of a written heap page that differs from the page's previous durable image is spoken about by a log record that has reached stable storage since (content rule: catches changes that do not move the page LSN); a writing transaction's commit returns only after its COMMIT record is durable, the log file always parses (with the repository's own record parser) into complete records with per-transaction increasing LSNs and intact prevLSN chains.",
          "heap pages = table heap chains of user tables; sequential histories here, concurrent executions are covered by the Engine C drivers", "§4 C08"),
  "C09": ("explicit-state search over DDL/DML/clean-restart histories on the real database, differential battery before/after each restart",
          "Every history up to the depth bound of CREATE TABLE, inserts (incl. multi-page growth), in-place/key-changing/relocating updates, deletes and Shutdown()+reopen cycles is run on the real engine (pool 32 KB and 128 KB, 3 seeds); a battery of full scan, every point key and every range through index path and scan path must give identical answers immediately before shutdown and after reopen; later statements are compared with a row model.",
@@ -38,7 +38,7 @@ CLAIMED = {
  "C11": ("bounded-exhaustive input enumeration of 2- and 3-table joins on the real SQL path x statistics states x every plan reachable through the optimizer's tie-breaks (plan-choice hook), against a naive nested-loop evaluation",
          "All pairs of small table contents (0-2, thorough 0-3 rows over a 3-value join key domain: duplicates, missing keys, empty tables), every single-equality ON over the 4 column pairs (also written in WHERE), no / 1 / 2-leaf conjunctive filters over either table, several select lists, cross joins, 3-table chains; statistics never updated / current / stale; every distinct plan found by breadth-first enumeration of tie-break deviations (hash join both orientations, index join, nested loop, with/without residual selection) is executed and compared with the naive evaluation.",
          "README's supported join form; plan enumeration is budgeted (48 planning runs per query, breadth-first: all single deviations from the canonical plan are always covered); NULL keys not reachable through SQL", "§4 C11"),
- "C12": ("preemption-bounded schedule enumeration of client goroutines calling the real ExecuteSQL, with the RequestManager loop, worker goroutines, channels and mutexes under a controlled scheduler; per-schedule linearizability check against a sequential table model",
+ "C12": ("preemption-bounded schedule enumeration of client goroutines calling the real ExecuteSQL, with the RequestManager loop, worker goroutines, channels and mutexes under a controlled scheduler; per-schedule linearizability check against a sequential table model; the 100-slot request channel is additionally modelled at capacity 1 and 2 (capacity+2 clients) and what that finds is replayed by one directed schedule against the real capacity with 102 clients",
          "2-3 client goroutines x 1-2 calls (reads and multi-row updates over overlapping key ranges of a 4-row table, unique written values); every schedule with <=1 (thorough <=2) preemptions and <=2 non-preemptive deviations at lock/latch/channel granularity is executed on the real code; each call must return exactly once with a result of its own statement, the history must be linearizable respecting real time, the final table must match, no deadlock and no livelock.",
          "go/chan constructs of lib/samehada rewritten mechanically to scheduler calls at check time; deviation bounds as stated (retry loops make the unbounded space cyclic); atomics are not scheduling points", "§4 C12"),
  "C13": ("explicit-state search over all new/fetch/write/unpin/flush/deallocate sequences on the real BufferPoolManager (pool sizes 1-3, in-memory and file disk manager, 2 users), merged on the pool's private state",
@@ -59,7 +59,7 @@ CLAIMED = {
  "C18": ("exhaustive enumeration of the input domains: all 2^32 integers and all non-NaN float32 bit patterns walked in numeric order (adjacent pairs), all strings over a 6-byte alphabet up to length 4/5 (all pairs), all row ids over byte lanes",
          "The whole finite domain is enumerated on the real exported encode/decode/pack functions (thorough: every int32 and every float32; quick: windows around every byte-lane/sign/exponent boundary plus a stride): round trip, order of adjacent values (total order by transitivity), same-key adjacency (largest-rid entry of a key sorts before smallest-rid entry of the next key), ScanKey window containment, B-tree zero padding.",
          "containers compare encoded keys bytewise; strings without NUL; the B-tree's 6-byte rid squeeze is mirrored here and exercised for real in C17", "§4 C18"),
- "C19": ("preemption-bounded schedule enumeration of the concurrent harness bodies (C04/C05/C12/C17 scenarios, writer||writer scenarios, DML next to checkpoint and statistics pass) in a -race build; the Go race detector is the per-schedule oracle, scheduler hand-offs hidden from it",
+ "C19": ("preemption-bounded schedule enumeration of the concurrent harness bodies (C04/C05/C12/C17 scenarios, writer||writer scenarios, two goroutines on a buffer pool of one or two frames, DML next to checkpoint and statistics pass) in a -race build; the Go race detector is the per-schedule oracle, scheduler hand-offs hidden from it",
          "Every schedule with <=1 (thorough <=2) preemptions of ~45 two/three-goroutine scenarios is executed on the real engine built with -race; hand-offs of the cooperative scheduler are wrapped in runtime.RaceDisable/Enable and the scheduler's own book-keeping is excluded from instrumentation (//go:norace), so the detector sees exactly the program's own synchronisation; goroutine creation and thread exit remain real happens-before edges. A report counts iff both access sites lie in the data path; findings are identified by the pair of functions.",
          "happens-before race detection: a race is reported only if the racing accesses occur in an explored schedule; reports outside the data path are listed, not judged; the maintenance scenario contains map-iteration nondeterminism (tolerated, reported as not exhaustive)", "§4 C19"),
  "C20": ("nested crash-point enumeration: every prefix (and flush-run subset, torn log tail) of the recovery run's own I/O trace, for every first-generation crash image",
